@@ -147,6 +147,8 @@ fn rule(ctx: &Ctx) -> String {
 }
 
 fn main() {
+    // a runaway execution must die alone (see mc_core::limit_address_space)
+    mc_core::limit_address_space(4 << 30);
     main_entry(Engine {
         name: "hcobs_mc",
         level: |_| "model_checking",
